@@ -953,3 +953,123 @@ func c01Crash(c *Ctx, idx int) CaseResult {
 	}
 	return res
 }
+
+// ---------- C05 under recovery: the call budget and the attempt record across a crash ----------
+
+func c05Crash(c *Ctx, idx int) CaseResult {
+	res := CaseResult{Counters: map[string]int{}}
+	r := gen.Rand(c.Seed, "C05crash", idx)
+	// strictly sequential plan (no concurrent writers: the k-th write event of the uninterrupted log is the k-th
+	// captured statement) with retry budgets and transient failures
+	ps := seqPlan(r)
+	for bi := range ps.Blocks {
+		for si := range ps.Blocks[bi].Seqs {
+			for ai := range ps.Blocks[bi].Seqs[si].Actions {
+				a := &ps.Blocks[bi].Seqs[si].Actions[ai]
+				a.Retries = r.Intn(4)
+				a.Steps = nil
+				for k := 0; k < r.Intn(a.Retries+2); k++ {
+					a.Steps = append(a.Steps, plug.Step{Out: plug.Transient, SleepUS: r.Intn(400)})
+				}
+				final := plug.OK
+				if r.Intn(5) == 0 {
+					final = plug.Permanent
+				}
+				a.Steps = append(a.Steps, plug.Step{Out: final, SleepUS: r.Intn(400)})
+			}
+		}
+		ps.Blocks[bi].Tol = -1
+	}
+	ps.AssignTags()
+	retries := map[string]int{}
+	for _, b := range ps.Blocks {
+		for _, s := range b.Seqs {
+			for _, a := range s.Actions {
+				retries[a.Tag] = a.Retries
+			}
+		}
+	}
+	var begunBefore []map[string]int // index k: begins per tag before the k-th write of the uninterrupted run
+	var first any
+	var cpRef *crash.Captured
+	var pending []func()
+	cp := exploreCrashes(&ps, r, 1<<30, &res, func(sk *spec.PlanView, rec *crash.Recovery, t *oracle.Trace, second bool, k, j int) {
+		if rec == nil || !rec.Returned || rec.Final == nil {
+			return
+		}
+		pending = append(pending, func() {
+			if begunBefore == nil {
+				cur := map[string]int{}
+				snap := func() map[string]int {
+					m := map[string]int{}
+					for k, v := range cur {
+						m[k] = v
+					}
+					return m
+				}
+				begunBefore = append(begunBefore, snap())
+				for _, e := range cpRef.Events {
+					switch e.Kind {
+					case "begin":
+						cur[e.Tag]++
+					case "write":
+						begunBefore = append(begunBefore, snap())
+					}
+				}
+			}
+			res.Counters["recoveries"]++
+			for tag, R := range retries {
+				o := sk.Get(tag)
+				fo := rec.Final.Get(tag)
+				if o == nil || fo == nil {
+					continue
+				}
+				m := len(t.Of(tag))
+				nAtt := len(o.Attempts)
+				var vs []ev.Violation
+				if o.Status == spec.Running || o.Status == spec.NotStarted {
+					if m > max(0, R+1-nAtt) {
+						vs = append(vs, ev.V("C05", "recovered/budget-ignores-durable-attempts", "", "action %s (Retries %d) had %d durable attempts at crash point %d, yet it was invoked %d more times after the restart", tag, R, nAtt, k, m))
+					}
+					if k < len(begunBefore) {
+						if b := begunBefore[k][tag]; b+m > R+2 {
+							vs = append(vs, ev.V("C05", "recovered/too-many-calls", "", "action %s (Retries %d) was invoked %d times before crash point %d (of which %d attempts were durable) and %d times after the restart: more than Retries+1 plus the one call in flight at the crash", tag, R, b, k, nAtt, m))
+						}
+					}
+					if (fo.Status == spec.Completed || fo.Status == spec.Failed) && len(fo.Attempts) != nAtt+m {
+						vs = append(vs, ev.V("C05", "recovered/attempt-count", cmp(len(fo.Attempts), nAtt+m), "action %s: %d durable attempts at crash point %d plus %d invocations after the restart, but %d attempts are recorded in the end", tag, nAtt, k, m, len(fo.Attempts)))
+					}
+				}
+				if len(vs) > 0 && first == nil {
+					first = map[string]any{"k": k, "durable_state": describeSk(sk), "final": rec.Final, "recovery_events": rec.Events}
+				}
+				res.Viols = append(res.Viols, vs...)
+			}
+		})
+	})
+	if cp != nil {
+		cpRef = cp
+		for _, f := range pending {
+			f()
+		}
+		res.Nontriv = hashStr(fmt.Sprint("crash", ps))
+		res.ISig = res.Nontriv
+		if idx%50 == 9 {
+			res.Sample = map[string]any{"mode": "call budget and attempt record across every crash point of a sequential plan with retries", "plan": ps, "writes": cp.NW}
+		}
+	}
+	if len(res.Viols) > 0 {
+		res.Witness = map[string]any{"plan": ps, "first": first}
+	}
+	return res
+}
+
+func cmp(a, b int) string {
+	switch {
+	case a < b:
+		return "<"
+	case a > b:
+		return ">"
+	}
+	return "="
+}
